@@ -45,20 +45,22 @@ pub fn plan(prop: &str, tier: &str, ctx: &Ctx) -> (u64, u64, String) {
     match prop {
         "C10" => {
             let l = if thorough { 5 } else { 4 };
-            let ex = crate::gen::count_strings(16, l);
+            let tl = if thorough { 4 } else { 3 };
+            let ex = crate::gen::count_strings(16, l) + crate::gen::count_token_strings(tl);
             (
                 ex + if thorough { 30_000_000 } else { 1_000_000 },
                 ex,
-                format!("every string of length <= {l} over the 16-symbol alphabet {:?} x 16 environments", crate::gen::C10_ALPHABET),
+                format!("every sequence of 1..{tl} tokens over the 36-token YAML alphabet {:?} and every string of length <= {l} over the 16-symbol alphabet {:?}, each x 16 environments", crate::gen::TOKENS, crate::gen::C10_ALPHABET),
             )
         }
         "C01" => {
             let l = if thorough { 5 } else { 4 };
-            let ex = crate::gen::w5_count(l) * c01::W5_ENVS.len() as u64;
+            let tl = if thorough { 4 } else { 3 };
+            let ex = (crate::gen::w5_count(l) + crate::gen::count_token_strings(tl)) * c01::W5_ENVS.len() as u64;
             (
                 ex + if thorough { 150_000_000 } else { 4_000_000 },
                 ex,
-                format!("every string of length <= {l} over the 14-symbol alphabet {:?} x {} environments", crate::gen::W5_ALPHABET, c01::W5_ENVS.len()),
+                format!("every string of length <= {l} over the 14-symbol alphabet {:?} and every sequence of 1..{tl} tokens over the 36-token YAML alphabet {:?}, each x {} environments", crate::gen::W5_ALPHABET, crate::gen::TOKENS, c01::W5_ENVS.len()),
             )
         }
         "C17" => {
